@@ -201,6 +201,8 @@ def correspond(ctx, scale):
                 frozen = rep % 2 == 1
                 b, n = 3, 6
                 hw = (2, 3) if lay == 'image' else (1, 2, 3)
+                if lay == 'cfirst' and rep % 2 == 0:
+                    n = m['dim']          # square case: sequence length = feature dimension (a transposition slip is invisible in the shapes)
                 xs = torch.randn(b, n, m['dim'])
                 key = f'{m["name"]}:{lay}'
                 grouped = m['name'] == 'grvq'
